@@ -348,11 +348,67 @@ def check_frames(case, res):
 
 # ------------------------------------------------------------------------------------------------ writer round trip
 
-# TODO(writer_roundtrip): third part of C10 - "reading the SRT writer's own output returns the cues that were written".
-# Needs the strict cue parser (being written separately) to read the writer's string into the same cue model as
-# gen_srt.expected(); then: PARTS["writer_roundtrip"] = Part("writer_roundtrip", check_writer_roundtrip, strategy=<C06 documents>, ...)
-# with check_writer_roundtrip comparing strict_parse(srt_writer.from_model(doc)) with the paragraphs()/observe_p() of
-# to_model(io.StringIO(that string)) through time_fails()/text_fails() above.
+def check_writer_roundtrip(case, res):
+  """reading the SRT writer's own output returns the cues that were written: the writer's string is read by the strict parser of
+  vt/cueparse.py (what was written) and by the SRT reader (what is returned); times, lines and per-character styles must agree"""
+  from vt import gen_model as _gm, cueparse as _cp
+  from vt.props import c06 as _c06
+  import ttconv.srt.writer as _w
+  doc = _gm.build(case["spec"])
+  try:
+    out = _w.from_model(doc, _c06.SRT_CFGS[case["cfg"]])
+    cues = _cp.parse_srt(out, strict_text=False)
+  except Exception:  # pylint: disable=broad-except
+    res.label("writer-output-unusable")       # whether the writer may fail or write bad grammar is C07's business
+    return
+  res.label("cfg:" + case["cfg"])
+  try:
+    doc2 = to_model(io.StringIO(out))
+  except Exception as e:  # pylint: disable=broad-except
+    res.crash(e, "roundtrip:")
+    return
+  if doc2 is None:
+    if cues:
+      res.fail("roundtrip:reader-returned-none", repr(out[:200]))
+    return
+  ps = paragraphs(doc2)
+  if len(ps) != len(cues):
+    res.fail("roundtrip:cue-count", "writer wrote %d cues, reader returned %d paragraphs: %r" % (len(cues), len(ps), out[:300]))
+    return
+  for c, (p, off) in zip(cues, ps):
+    b = None if p.get_begin() is None else Fraction(p.get_begin()) + off
+    e = None if p.get_end() is None else Fraction(p.get_end()) + off
+    if isinstance(p.get_begin(), float) or isinstance(p.get_end(), float):
+      res.fail("roundtrip:time-type:float", "%r %r" % (p.get_begin(), p.get_end()))
+    if (b or 0) != c.begin or e != c.end:
+      res.fail("roundtrip:time-value", "written %s --> %s, read %s --> %s" % (c.begin, c.end, b, e))
+    lines, sty, _foreign = observe_p(p)
+    got = [x for x in (trim(l, s_) for l, s_ in zip(lines, sty)) if x[0].strip() != ""]      # lines without visible characters carry nothing
+    want = [x for x in (trim(l, s_) for l, s_ in zip(c.lines, c.styles)) if x[0].strip() != ""]
+    if [g[0] for g in got] != [w_[0] for w_ in want]:
+      res.fail("roundtrip:lines", "written %r read %r" % ([w_[0] for w_ in want], [g[0] for g in got]))
+      continue
+    for (gl, gs), (wl, ws) in zip(got, want):
+      for ch, g, w_ in zip(gl, gs, ws):
+        if ch == " ":
+          continue
+        wcol = w_["color"]
+        wt = (w_["bold"], w_["italic"], w_["underline"],
+              None if wcol is None else tuple(int(wcol[i:i + 2], 16) for i in (1, 3, 5, 7)) if len(wcol) == 9 else wcol)
+        gt = (g[0], g[1] is True, g[2], g[3])
+        if gt != wt:
+          which = [n for n, x, y in zip(("bold", "italic", "underline", "colour"), gt, wt) if x != y][0]
+          res.fail("roundtrip:style:" + which, "char %r written %r read %r in %r" % (ch, wt, gt, c.raw_lines))
+          break
+  res.nontrivial = len(cues) >= 2 and any(len(c.lines) >= 2 for c in cues)
+
+
+def roundtrip_cases(tier):
+  from vt import gen_model as _gm
+  from vt.props import c06 as _c06, c07 as _c07
+  from hypothesis import strategies as st
+  return st.builds(lambda spec, mode, cfg: {"spec": _c06.shape(spec, mode), "cfg": cfg}, _gm.docspecs(_c07.STYLED),
+                   st.sampled_from([0, 1, 2]), st.sampled_from(["srt", "srt", "srt-noformat"]))
 
 
 def finish(ctx):
@@ -371,4 +427,6 @@ PARTS = {
                                    "tag:font", "tag:angle-short-upper", "font:extra-attribute", "font:quote-none", "lines:5",
                                    "leading-blank-lines", "blank-run-between-cues", "no-final-eol", "counter:non-sequential")),
   "frames": Part("frames", check_frames, chunks=frames_chunks, cases=frames_cases, exhaustive=(True, True)),
+  "writer_roundtrip": Part("writer_roundtrip", check_writer_roundtrip, strategy=roundtrip_cases, n=(640, 48000),
+                           required_labels=("cfg:srt",)),
 }
